@@ -48,6 +48,22 @@ def countUnique (xs : List Nat) : Nat :=
     if est > n then n else est
   else distinctCount xs
 
+/-- number of positions whose value differs from its predecessor -/
+def changes : List Nat → Nat
+  | a :: b :: rest => (if a ≠ b then 1 else 0) + changes (b :: rest)
+  | _ => 0
+
+/-- `stats->uniqueCount`: sorted input (either direction) is counted exactly by comparing neighbours — no
+    allocation, so no out-of-memory fallback; anything else goes through `varintAdaptiveCountUnique` -/
+def uniqueOf (xs : List Nat) : Nat :=
+  if xs = [] then 0
+  else if isAsc xs || isDesc xs then 1 + changes xs
+  else countUnique xs
+
+def isStrictAsc : List Nat → Bool
+  | a :: b :: rest => decide (a < b) && isStrictAsc (b :: rest)
+  | _ => true
+
 def sumDeltas : List Nat → Nat
   | a :: b :: rest => absDiff b a + sumDeltas (b :: rest)
   | _ => 0
@@ -63,7 +79,7 @@ def analyze (xs : List Nat) : Stats :=
   let range := mx - mn
   let thr := (mn + range * 95 % 2 ^ 64 / 100) % 2 ^ 64
   { count := n, minValue := mn, maxValue := mx, range := range,
-    uniqueCount := countUnique xs,
+    uniqueCount := uniqueOf xs,
     avgDelta := if n ≤ 1 then 0 else sumDeltas xs % 2 ^ 64 / (n - 1),
     maxDelta := maxDeltaL xs,
     outlierCount := if range > 0 then (xs.filter (· > thr)).length else 0,
